@@ -105,8 +105,9 @@ func (stdin *Stdin) ReadAll() ([]byte, error) {
 read:
 	verifYield(stdin, "ra.take")
 	stdin.mutex.Lock()
-	stdin.bRead = uint64(len(stdin.buffer))
 	b := stdin.buffer
+	stdin.buffer = make([]byte, 0)
+	stdin.bRead += uint64(len(b))
 	stdin.mutex.Unlock()
 	return b, nil
 }
